@@ -55,6 +55,8 @@
 (*   Deliver         the other end of the stream reads the oldest entry and *)
 (*                   hands it to the local channel (blocking: needs room);  *)
 (*                   what is in flight when that end stops reading is lost  *)
+(*   AckNoChan       recvAck at an owner without a local ack channel: error,*)
+(*                   the stream is shut down (variant: dropped silently)    *)
 (*   Stall/Unstall   the shard's local stream stops / resumes consuming     *)
 (*   Consume         ... and takes the oldest entry out of the channel      *)
 (*                                                                          *)
@@ -68,7 +70,7 @@
 EXTENDS Integers, FiniteSets, Sequences, TLC
 
 CONSTANTS Inst, Shard, MaxStreams, MaxEnv, MaxMsg,
-          AllowHold, AllowBreak, AllowRemove, AllowStall, Cap, Warm, AllowTopo,
+          AllowHold, AllowBreak, AllowRemove, AllowStall, Cap, Warm, AllowTopo, AckDropSilently,
           FixSenderPrune, FixGuardedDelete, FixOpening, FixPeerKey
 
 Cluster(sh) == sh \div 10
@@ -293,6 +295,8 @@ RouteAck(i, k) ==
   /\ UNCHANGED <<local, view, st, rtab, stab, pc, des, todo, hold, frozen, nenv, wire, stall>>
 \* the local channel an entry goes to at the reading end: the target shard's send channel (messages), the source shard's ack channel
 ChanOf(m) == <<m.rend, m.kind, IF m.kind = "msg" THEN m.key[1] ELSE m.key[2]>>
+\* the reading end has the local channel of the shard (it exists exactly while the shard's local stream is registered)
+HasChan(m) == ChanOf(m)[3] \in local[m.rend]
 Queued(ch) == {x \in msgs : x.state = "queued" /\ ChanOf(x) = ch}
 \* the other end reads the oldest entry of the stream and hands it to the local channel (recvReplicationMessages: ch <- msg /
 \* recvAck -> DeliverAckToShardOwner: ackCh <- ack, both blocking): needs room in the channel
@@ -300,9 +304,22 @@ Deliver(m) ==
   /\ m.state = "flight"
   /\ IF m.kind = "msg" THEN CliSendOK(m.n) ELSE SrvSendOK(m.n)
   /\ \A x \in msgs : (x.n = m.n /\ x.kind = m.kind /\ x.state = "flight") => m.id <= x.id
+  /\ HasChan(m)       \* (a message for a shard without a local send channel waits in the receiver's retry loop)
   /\ Cardinality(Queued(ChanOf(m))) < Cap
   /\ msgs' = (msgs \ {m}) \cup {[m EXCEPT !.state = "queued"]}
   /\ UNCHANGED <<local, view, st, rtab, stab, pc, des, todo, hold, frozen, nenv, wire, stall>>
+\* intraProxyStreamSender.recvAck: the acknowledgement reached the recorded owner over the stream, but that instance has no local
+\* ack channel for the source shard (DeliverAckToShardOwner(..., allowForward=false) returns false): recvAck returns an error, the
+\* stream is shut down - the forwarding side, whose send had succeeded, learns of it by its stream ending. Variant AckDropSilently:
+\* log and go on with the next Recv (nobody learns that the acknowledgement is gone).
+AckNoChan(m) ==
+  /\ m.state = "flight" /\ m.kind = "ack" /\ SrvSendOK(m.n) /\ ~HasChan(m)
+  /\ \A x \in msgs : (x.n = m.n /\ x.kind = m.kind /\ x.state = "flight") => m.id <= x.id
+  /\ IF AckDropSilently
+     THEN msgs' = (msgs \ {m}) \cup {[m EXCEPT !.state = "dropped"]} /\ UNCHANGED st
+     ELSE /\ msgs' = (msgs \ {m}) \cup {[m EXCEPT !.state = "refused"]}
+          /\ st' = [st EXCEPT ![m.n] = [@ EXCEPT !.sshut = TRUE, !.eof = TRUE]]
+  /\ UNCHANGED <<local, view, rtab, stab, pc, des, todo, hold, frozen, nenv, wire, stall>>
 \* the shard's local stream takes the oldest entry out of the channel
 Consume(m) ==
   /\ m.state = "queued" /\ <<m.rend, ChanOf(m)[3]>> \notin stall
@@ -321,7 +338,7 @@ RecNext == \E i \in Inst : Begin(i) \/ Ensure(i) \/ Prune(i)
 StreamNext == \E n \in Sid : CliOpen(n) \/ CliOpenFail(n) \/ SrvArrive(n) \/ SrvSkip(n) \/ CliEnd(n) \/ CliExit(n)
                              \/ SrvEnd(n) \/ SrvExit(n)
 MsgNext == \/ \E j \in Inst, k \in Keys : RouteMsg(j, k) \/ RouteAck(j, k)
-           \/ \E m \in msgs : Deliver(m) \/ Consume(m)
+           \/ \E m \in msgs : Deliver(m) \/ Consume(m) \/ AckNoChan(m)
 Next == EnvNext \/ RecNext \/ StreamNext \/ MsgNext
 Fair == /\ \A i \in Inst : WF_vars(Begin(i)) /\ WF_vars(Ensure(i)) /\ WF_vars(Prune(i))
         /\ \A n \in Sid : /\ WF_vars(CliOpen(n)) /\ WF_vars(CliOpenFail(n)) /\ WF_vars(SrvArrive(n)) /\ WF_vars(SrvSkip(n))
@@ -356,6 +373,9 @@ MsgSound ==
   \A m \in msgs : m.state # "undelivered" => m.n # 0 /\ m.skey = m.key /\ m.rend = m.owner
 \* every entry comes out of the local channel exactly once (one record per id) and in the order of the hand-offs: nothing that was
 \* handed to a stream later is out (or in the channel) while an earlier entry of the same stream is still in flight
+\* no silent loss: what the forwarder's send accepted is handed to a local channel, or is still on its way / waiting, or was lost
+\* with its stream, or was refused BY ENDING THE STREAM - never dropped while the stream goes on
+NoSilentLoss == \A m \in msgs : m.state # "dropped"
 MsgOrder ==
   \A m1, m2 \in msgs : (m1.n = m2.n /\ m1.kind = m2.kind /\ m1.n # 0 /\ m1.id < m2.id /\ m1.state = "flight")
                          => m2.state \in {"flight", "lost"}
